@@ -118,7 +118,7 @@ func c09Exec(run *ev.Run, c ev.Case) {
 		if b.Random > 0 {
 			r := rng(b.Seed, "c09random")
 			h := c09Hist{Suite: r.Intn(9)}
-			kinds := []string{"devid", "authcaps", "chassis", "raw", "serfail", "sl-authcaps", "sl-guid", "sl-authcaps", "sl-newsession", "badlun", "badlun7"}
+			kinds := []string{"devid", "authcaps", "chassis", "raw", "serfail", "sl-authcaps", "sl-guid", "sl-authcaps", "sl-newsession", "badlun", "badlun7", "huge480", "huge600", "huge1400", "close-lost", "close-refused"}
 			for i := 0; i < b.Random; i++ {
 				k := kinds[r.Intn(len(kinds))]
 				var sc []string
@@ -140,6 +140,15 @@ func c09Exec(run *ev.Run, c ev.Case) {
 				if expired {
 					sc, giveUp = nil, false
 				}
+				switch k {
+				case "close-lost":
+					sc, giveUp = []string{"lost"}, false
+				case "close-refused":
+					sc, giveUp = []string{"cc:87"}, false
+				}
+				if strings.HasPrefix(k, "close") && expired {
+					k, sc = "close", nil
+				}
 				h.Cmds = append(h.Cmds, c09Cmd{Kind: k, Script: sc, GiveUp: giveUp, Expired: expired})
 			}
 			c09History(run, h)
@@ -149,7 +158,18 @@ func c09Exec(run *ev.Run, c ev.Case) {
 			// calls made with a context that is already finished, between ordinary commands
 			kinds := []string{"devid", "authcaps", "chassis", "raw", "sl-guid", "sl-authcaps"}
 			idx := 0
-			for _, bl := range []string{"badlun", "badlun7", "serfail"} {
+			for _, cl := range []c09Cmd{{Kind: "close-lost", Script: []string{"lost"}}, {Kind: "close-refused", Script: []string{"cc:87"}}, {Kind: "close", Expired: true}, {Kind: "close-lost", Script: []string{"busy", "lost"}}} {
+				for n := 0; n <= 2; n++ {
+					var cmds []c09Cmd
+					for i := 0; i < n; i++ {
+						cmds = append(cmds, c09Cmd{Kind: kinds[(i+len(cl.Kind))%4]})
+					}
+					// the failed Close is retried, and the session is used in between
+					cmds = append(cmds, cl, c09Cmd{Kind: "devid"}, cl, cl, c09Cmd{Kind: "raw", Script: []string{"busy"}}, c09Cmd{Kind: "close-refused", Script: []string{"cc:87"}})
+					c09History(run, c09Hist{Suite: n + len(cl.Kind), Cmds: cmds})
+				}
+			}
+			for _, bl := range []string{"badlun", "badlun7", "serfail", "huge480", "huge600", "huge1400"} {
 				for n := 0; n <= 2; n++ {
 					var cmds []c09Cmd
 					for i := 0; i < n; i++ {
@@ -245,6 +265,20 @@ func c09Call(kind string, sess *bmc.V2Session, st *bmc.V2SessionlessTransport) (
 		// library makes of it, the numbering of what it transmits must stay intact
 		cmd := &RawCmd{Op: ipmi.Operation{Function: ipmi.NetworkFunctionAppReq, Command: 0x42}, LUN: ipmi.LUN(4 + len(kind)%4), Req: []byte{1, 2, 3}}
 		return func(ctx context.Context) (ipmi.CompletionCode, error) { return sess.SendCommand(ctx, cmd) }, []byte{0xaa, 0xbb}, 0
+	case "huge480", "huge600", "huge1400":
+		// a caller-defined command larger than anything the library itself sends
+		n := 480
+		fmt.Sscanf(kind, "huge%d", &n)
+		body := make([]byte, n)
+		for i := range body {
+			body[i] = byte(i*7 + n)
+		}
+		cmd := &RawCmd{Op: ipmi.Operation{Function: ipmi.NetworkFunctionAppReq, Command: 0x43}, Req: body}
+		return func(ctx context.Context) (ipmi.CompletionCode, error) { return sess.SendCommand(ctx, cmd) }, []byte{0xaa, 0xbb}, 0
+	case "close-lost", "close-refused", "close":
+		// Close Session that does not succeed (reply lost / refused by the BMC / made with a
+		// finished context): the session lives on and so does its numbering
+		return func(ctx context.Context) (ipmi.CompletionCode, error) { return 0, sess.Close(ctx) }, nil, 0
 	case "badlun7":
 		cmd := &RawCmd{Op: ipmi.Operation{Function: ipmi.NetworkFunctionAppReq, Command: 0x42}, LUN: 7, NoReq: true}
 		return func(ctx context.Context) (ipmi.CompletionCode, error) { return sess.SendCommand(ctx, cmd) }, []byte{0xaa, 0xbb}, 0
